@@ -33,7 +33,8 @@ ASSUMPTIONS = ['alpha(f), beta2(f), gamma(f) of the fibre are taken from the Fib
                'for per-frequency loss the pump channel\'s alpha enters psi_ij (the paper has a single alpha): class '
                'labelled loss:per-frequency(mirrored-form)',
                'beta2 of cut and pump are averaged (the paper has a single beta2)',
-               'lumped losses are not part of the closed form and are not generated here']
+               'lumped losses, the Raman flag and computed_channels settings are not inputs of the closed form: generated, and '
+               'required not to change the result of the analytic method']
 
 # Observation, deliberately NOT judged (DESIGN: "when only gamma is given"): if a fibre carries both effective_area and
 # gamma, Fiber.gamma(f) is derived from effective_area alone and the user's gamma never reaches the NLI model, although
@@ -49,9 +50,14 @@ RTOL_MONO = 1e-12
 def cases(draw):
     chans = draw(st.one_of(spectra.comb(1, 12), spectra.comb(2, 40), spectra.comb(2, 40), spectra.comb(30, 120)))
     f_lo, f_hi = fibres.band_of(chans)
-    fib = draw(fibres.fibre(f_lo, f_hi, channel_freqs=[c['f'] for c in chans], lumped=False))
+    # lumped losses, the Raman flag and the GGN "computed channels" settings are no inputs of the closed form: the analytic
+    # method must give the same result with them (the formula uses the fibre's own loss coefficient and length)
+    fib = draw(fibres.fibre(f_lo, f_hi, channel_freqs=[c['f'] for c in chans], lumped=draw(st.integers(0, 3)) == 0))
     n = len(chans)
-    return {'comb': chans, 'fiber': fib,
+    sim = {'raman': n <= 24 and draw(st.integers(0, 5)) == 0,
+           'computed_channels': draw(st.sampled_from([None, None, None, [1], [1, 2], [1, 3, 5]])),
+           'computed_number_of_channels': draw(st.sampled_from([None, None, None, 2, 3]))}
+    return {'comb': chans, 'fiber': fib, 'sim': sim,
             'k': draw(st.one_of(st.sampled_from([0.1, 2.0, 10.0]), st.floats(0.1, 10.0))),
             'added': draw(st.integers(0, n - 1)),
             'raised': [draw(st.integers(0, n - 1)), draw(st.floats(0.1, 10.0))]}
@@ -82,8 +88,20 @@ def run(case, ctx):
 
 def _run(case, ctx):
     from gnpy.core.parameters import SimParams
-    SimParams.set_params({'nli_params': {'method': 'gn_model_analytic'}, 'raman_params': {'flag': False}})
+    sim = case.get('sim') or {}
+    nli_params = {'method': 'gn_model_analytic'}
+    for k in ('computed_channels', 'computed_number_of_channels'):
+        if sim.get(k) is not None:
+            nli_params[k] = sim[k]
+            ctx.label('sim:' + k)
+    raman = {'flag': True, 'result_spatial_resolution': 10e3, 'solver_spatial_resolution': 2e3} if sim.get('raman') \
+        else {'flag': False}
+    if sim.get('raman'):
+        ctx.label('sim:raman-flag-on')
+    SimParams.set_params({'nli_params': nli_params, 'raman_params': raman})
     chans, fp = case['comb'], case['fiber']
+    if fp.get('lumped_losses'):
+        ctx.label('fibre:lumped-losses')
     n = len(chans)
     powers = [1e-3 * 10 ** (c['p_dbm'] / 10) for c in chans]
     by_f = sorted(range(n), key=lambda i: chans[i]['f'])
